@@ -49,7 +49,8 @@ def graph():
         so += len(q)
     sides = [(n, s) for n in seqs for s in (0, 1)]
     for (a, sa), (b, sb) in itertools.combinations_with_replacement(sides, 2):
-        g.add_link(a, "+" if sa == 1 else "-", b, "+" if sb == 0 else "-", "0M")
+        # link overlaps are not applied when gaftools spells a walk (plain concatenation); some links carry one
+        g.add_link(a, "+" if sa == 1 else "-", b, "+" if sb == 0 else "-", "1M" if (a, b) == ("s1", "s1.alt") or a == b == "s3" else "0M")
     return g
 
 
@@ -274,8 +275,24 @@ def judge_one(g, reads, rin, line):
 
 def judge_records(res, g, reads, recs, out, lines, info, scratch=None):
     if out.kind != "ok":
-        res.fail(f"C12/realign-failed:{out.sig()}", f"realign failed on {len(recs)} valid records: {out.brief()}",
-                 {"gfa": g.text(), "reads": {r.qname: reads[r.qname] for r in recs[:50]}, "records": [r.line() for r in recs[:50]]})
+        ctx = recs[:50]
+        if scratch is not None:
+            # the shortest prefix of the file on which the command still fails, then its last record alone
+            def fails(lst):
+                fa = "".join(f">{q}\n{reads[q]}\n" for q in dict.fromkeys(r.qname for r in lst))
+                o, ls = run_realign_file(scratch, g.text(), fa, lst, tag="shrink")
+                return o.kind != "ok"
+
+            lo, hi = 1, len(recs)
+            while lo < hi:
+                mid = (lo + hi) // 2
+                if fails(recs[:mid]):
+                    hi = mid
+                else:
+                    lo = mid + 1
+            ctx = [recs[lo - 1]] if fails([recs[lo - 1]]) else recs[:lo][-3000:]
+        res.fail(f"C12/realign-failed:{out.sig()}", f"realign failed on {len(recs)} valid records ({out.brief()}); still fails on {len(ctx)} of them, the last being {ctx[-1].path} [{ctx[-1].ps},{ctx[-1].pe})",
+                 {"gfa": g.text(), "reads": {r.qname: reads[r.qname] for r in ctx}, "records": [r.line() for r in ctx]})
         return
     if len(lines) != len(recs):
         res.fail("C12/record-count", f"{len(recs)} records in, {len(lines)} out", {"gfa": g.text(), "reads": {r.qname: reads[r.qname] for r in recs[:50]}, "records": [r.line() for r in recs[:50]]})
@@ -356,7 +373,8 @@ def run_shard(spec, tier, scratch):
                 cg = f"{len(target)}D{len(read_mid)}I"
             else:
                 cg = None
-            opt = ["tp:A:P", "NM:i:3"] + ([f"cg:Z:{cg}"] if cg else []) + ["zz:Z:k_p"]
+            # (integer fields in non-canonical but valid spelling: an explicit '+', leading zeros)
+            opt = ["tp:A:P", ("NM:i:3", "NM:i:+3", "NM:i:03")[n % 3]] + ([f"cg:Z:{cg}"] if cg else []) + ["zz:Z:k_p"] + (["s1:i:007"] if n % 5 == 2 else [])
             # column 10 of the INPUT is whatever the first aligner claimed (here: every base matches)
             m = len(read_mid)
             bl = sum(int(x) for x, op in rgfa.cigar_runs(cg or "")) or len(read_mid)
@@ -384,8 +402,8 @@ def boundary(res, scratch):
     recs, info = [], []
     for n, qlen in enumerate((59_999, 60_000, 60_001, 60_002)):
         # the input CIGAR is deliberately wrong-looking (fragmented): a realigned record gets a fresh one, a passed-through keeps it
-        cg = f"{qlen - 10}=5X5="
-        recs.append(rgfa.Rec("long", len(reads["long"]), 0, qlen, "+", ">b1>b2", len(big) + 4, 5, 5 + qlen, qlen - 5, qlen, 60, ["tp:A:P", f"cg:Z:{cg}", "zz:Z:t_1"]))
+        cg = f"{qlen - 10}=5X5=" if n % 2 == 0 else f"{qlen - 10}M5X5M"  # every other one in the M flavour of minimap2 / minigraph
+        recs.append(rgfa.Rec("long", len(reads["long"]), 0, qlen, "+", ">b1>b2", len(big) + 4, 5, 5 + qlen, qlen - 5, qlen, 60, ["tp:A:P", f"cg:Z:{cg}", "zz:Z:t_1", "s1:i:+007"]))
         info.append((1, False))
     # the guard is on the READ span: 60,001 read bases over 59,991 path bases pass through, 59,995 read bases over
     # 60,005 path bases are realigned
